@@ -34,12 +34,28 @@ type stubPlugin struct {
 	name    string
 	answers map[string]stubAnswer
 	delay   time.Duration
+	// the "caller gives up" scenario: a plugin with hold != nil announces that it is inside its call (entered) and
+	// answers only when hold is closed; the others announce that their answer is ready (ready)
+	hold    chan struct{}
+	entered chan struct{}
+	ready   chan struct{}
+	ctxErr  bool // after the hold: answer with the context's error if it has one (a well-behaved slow plugin)
 }
 
 func (s *stubPlugin) Name() string { return s.name }
-func (s *stubPlugin) GetNodesDeployCapacity(_ context.Context, nodenames []string, _ plugintypes.WorkloadResourceRequest) (*plugintypes.GetNodesDeployCapacityResponse, error) {
+func (s *stubPlugin) GetNodesDeployCapacity(ctx context.Context, nodenames []string, _ plugintypes.WorkloadResourceRequest) (*plugintypes.GetNodesDeployCapacityResponse, error) {
 	if s.delay > 0 {
 		time.Sleep(s.delay)
+	}
+	if s.hold != nil {
+		close(s.entered)
+		<-s.hold
+		if s.ctxErr && ctx.Err() != nil {
+			return nil, ctx.Err()
+		}
+	}
+	if s.ready != nil {
+		defer close(s.ready)
 	}
 	resp := &plugintypes.GetNodesDeployCapacityResponse{NodeDeployCapacityMap: map[string]*plugintypes.NodeDeployCapacity{}}
 	for _, n := range nodenames {
@@ -99,6 +115,11 @@ var _ plugins.Plugin = (*stubPlugin)(nil)
 type mergeCase struct {
 	Nodes   []string                `json:"nodes"`
 	Plugins []map[string]stubAnswer `json:"plugins"` // per plugin: node -> answer (absent = not offered)
+	// GiveUp: additionally, the caller's context is cancelled while plugin Slow has not answered yet (the others
+	// have): the manager may fail, it must not present the answers of the others as the aggregate
+	GiveUp     bool `json:"caller_gives_up,omitempty"`
+	Slow       int  `json:"slow_plugin,omitempty"`
+	SlowCtxErr bool `json:"slow_plugin_reports_context_error,omitempty"`
 }
 
 type mergedNode struct {
@@ -222,6 +243,78 @@ func TestC09(t *testing.T) {
 				return
 			}
 		}
+		if c.GiveUp && len(c.Plugins) >= 2 {
+			m, _ := cobalt.New(baseConfig(100, -1))
+			stubs := []*stubPlugin{}
+			for i := range c.Plugins {
+				sp := &stubPlugin{name: fmt.Sprintf("p%d", i), answers: c.Plugins[i]}
+				if i == c.Slow%len(c.Plugins) {
+					sp.hold, sp.entered, sp.ctxErr = make(chan struct{}), make(chan struct{}), c.SlowCtxErr
+				} else {
+					sp.ready = make(chan struct{})
+				}
+				stubs = append(stubs, sp)
+				m.AddPlugins(sp)
+			}
+			type outT struct {
+				got   map[string]*plugintypes.NodeDeployCapacity
+				total int
+				err   error
+			}
+			cctx, cancel := context.WithCancel(ctx)
+			out := make(chan outT, 1)
+			go func() {
+				g, tot, err := m.GetNodesDeployCapacity(cctx, c.Nodes, resourcetypes.Resources{})
+				out <- outT{g, tot, err}
+			}()
+			for _, sp := range stubs {
+				if sp.hold != nil {
+					<-sp.entered
+				} else {
+					<-sp.ready
+				}
+			}
+			cancel() // the caller gives up: every plugin but one has answered, that one is still working
+			var res outT
+			early := false
+			select {
+			case res = <-out:
+				early = true
+			case <-time.After(20 * time.Millisecond):
+			}
+			for _, sp := range stubs {
+				if sp.hold != nil {
+					close(sp.hold)
+				}
+			}
+			if !early {
+				res = <-out
+			}
+			rec.Count("caller_gave_up_calls", 1)
+			switch {
+			case res.err != nil:
+				rec.Count("caller_gave_up/manager_returned_error", 1)
+			default:
+				if early {
+					rec.Count("caller_gave_up/manager_returned_before_last_plugin", 1)
+				}
+				gm := map[string]mergedNode{}
+				for n, v := range res.got {
+					gm[n] = mergedNode{Capacity: v.Capacity, Usage: v.Usage, Rate: v.Rate}
+				}
+				same := len(gm) == len(want) && res.total == wantTotal
+				for n, w := range want {
+					if g, ok := gm[n]; !ok || g.Capacity != w.Capacity || !closeF(g.Usage, w.Usage) || !closeF(g.Rate, w.Rate) {
+						same = false
+					}
+				}
+				if !same {
+					rec.Violation("merge/caller-gave-up/partial-answers-returned-as-the-aggregate", fmt.Sprintf("the caller's context ended while plugin p%d had not answered; the manager returned no error and %s, the aggregate over all plugins is %s", c.Slow%len(c.Plugins), fmtMerged(gm, res.total), fmtMerged(want, wantTotal)), c)
+					return
+				}
+				rec.Count("caller_gave_up/manager_returned_full_aggregate", 1)
+			}
+		}
 		if len(outputs) > 1 {
 			rec.Violation("merge/result-depends-on-answer-order", fmt.Sprintf("%d different results for the same plugin answers: %v", len(outputs), outputs), c)
 		}
@@ -271,6 +364,9 @@ func genMergeCase(r *rand.Rand) *mergeCase {
 			ans[n] = a
 		}
 		c.Plugins = append(c.Plugins, ans)
+	}
+	if np >= 2 && r.Intn(4) == 0 {
+		c.GiveUp, c.Slow, c.SlowCtxErr = true, r.Intn(np), r.Intn(2) == 0
 	}
 	return c
 }
